@@ -52,7 +52,7 @@ def run_suite(crates):
     def once(extra):
         if os.path.exists(junit): os.remove(junit)
         cmd = "cargo nextest run --no-fail-fast --tool-config-file pb:/w/lib/nextest.toml --profile pb --test-threads 4 --offline " + \
-            " ".join("-p " + c for c in crates) + extra
+            " ".join("-p " + c for c in crates) + (" --features dicom-ul/async" if "dicom-ul" in crates else "") + extra
         rc, out = sh(cmd, timeout=7200)
         if not os.path.exists(junit):
             return None, out[-1500:]
